@@ -334,6 +334,100 @@ int main(int argc, char **argv) {
         }
         if (vf::deadline_hit()) break;
     }
+    // ---- legal programs with TWO handles of one entity: handle h1 is obtained and read first (whatever it memoises, it memoises
+    //      now), the entity is grown / shrunk through a second handle (or through the array behind an alias dimension), then
+    //      h1 is read at the old and at the new indices.  Every read must return or throw; a stale size in h1 must not turn
+    //      into an out-of-bounds access.
+    {
+        std::vector<Call> seqs;
+        auto G = [](const std::function<void()> &fn) { vf::guarded(fn); vf::count("calls"); };
+        for (int grow : {1, 0}) for (size_t n2 : (grow ? std::vector<size_t>{5, 9, 70} : std::vector<size_t>{3, 1, 0})) {
+            const std::string tag = std::string(grow ? "grown to " : "shrunk to ") + std::to_string(n2);
+            seqs.push_back({"two handles: range ticks " + tag, [=](File &f) {
+                RangeDimension h1 = A(f, "d3").getDimension(2).asRangeDimension(), h2 = A(f, "d3").getDimension(2).asRangeDimension();
+                G([&] { h1.tickAt(0); }); G([&] { h1.axis(4); }); G([&] { h1.ticks(); });
+                std::vector<double> t; for (size_t i = 0; i < n2; i++) t.push_back(1.0 + i);
+                G([&] { h2.ticks(t); });
+                for (size_t i = 0; i <= 72; i++) { G([&] { h1.tickAt(i); }); G([&] { h1[i]; }); }
+                for (size_t c : {(size_t)1, (size_t)4, n2, n2 + 1, (size_t)71}) for (size_t st : {(size_t)0, (size_t)3, (size_t)4, n2}) G([&] { h1.axis(c, st); });
+                G([&] { h1.ticks(); }); G([&] { h1.indexOf(3.5, PositionMatch::GreaterOrEqual); }); G([&] { h1.indexOf(0.0, 100.0, std::vector<double>(), RangeMatch::Inclusive); });
+            }});
+            seqs.push_back({"two handles: alias range dimension, array " + tag, [=](File &f) {
+                DataArray a = B(f).createDataArray("al", "t", DataType::Double, NDSize({4}));
+                a.setData(std::vector<double>{1, 2, 3, 4});
+                RangeDimension h1 = a.appendAliasRangeDimension();
+                G([&] { h1.tickAt(0); }); G([&] { h1.axis(4); }); G([&] { h1.ticks(); });
+                DataArray a2 = A(f, "al");
+                std::vector<double> t; for (size_t i = 0; i < n2; i++) t.push_back(1.0 + i);
+                if (n2 % 2) G([&] { a2.setData(t); }); else { G([&] { a2.dataExtent(NDSize({(ndsize_t)n2})); }); if (n2) G([&] { a2.setData(DataType::Double, t.data(), NDSize({(ndsize_t)n2}), NDSize({0})); }); }
+                for (size_t i = 0; i <= 72; i++) G([&] { h1.tickAt(i); });
+                for (size_t c : {(size_t)1, (size_t)4, n2, n2 + 1}) for (size_t st : {(size_t)0, (size_t)4, n2}) G([&] { h1.axis(c, st); });
+                G([&] { h1.ticks(); }); G([&] { std::vector<double> v; a.getData(v); });
+            }});
+            seqs.push_back({"two handles: set labels " + tag, [=](File &f) {
+                SetDimension h1 = A(f, "d2").getDimension(2).asSetDimension(), h2 = A(f, "d2").getDimension(2).asSetDimension();
+                G([&] { h1.labels(); }); G([&] { h1.indexOf(1.0, PositionMatch::Equal); });
+                std::vector<std::string> l; for (size_t i = 0; i < n2; i++) l.push_back("l" + std::to_string(i));
+                G([&] { h2.labels(l); });
+                G([&] { h1.labels(); });
+                for (double p : {0.0, 2.0, 3.0, 4.0, 8.0, 69.0, 70.0}) for (PositionMatch m : {PositionMatch::Equal, PositionMatch::LessOrEqual, PositionMatch::Greater}) G([&] { h1.indexOf(p, m); });
+                G([&] { h1.indexOf(0.0, 100.0, RangeMatch::Inclusive); });
+            }});
+            seqs.push_back({"two handles: array extent " + tag, [=](File &f) {
+                DataArray h1 = A(f, "d1"), h2 = A(f, "d1");
+                G([&] { h1.dataExtent(); }); G([&] { std::vector<double> v; h1.getData(v); });
+                G([&] { h2.dataExtent(NDSize({(ndsize_t)n2})); });
+                G([&] { std::vector<double> v; h1.getData(v); });
+                for (size_t c : {(size_t)1, (size_t)10, n2, n2 + 1}) for (size_t o : {(size_t)0, (size_t)9, (size_t)10, n2}) {
+                    G([&] { std::vector<double> buf(c ? c : 1); h1.getData(DataType::Double, buf.data(), NDSize({(ndsize_t)c}), NDSize({(ndsize_t)o})); });
+                    G([&] { std::vector<double> buf(c ? c : 1, 1.0); h1.setData(DataType::Double, buf.data(), NDSize({(ndsize_t)c}), NDSize({(ndsize_t)o})); });
+                }
+                G([&] { std::vector<double> v(3, 2.0); h1.appendData(DataType::Double, v.data(), NDSize({3}), 0); });
+                G([&] { h1.getDimension(1).asSampledDimension().axis(n2 + 1); });
+            }});
+            seqs.push_back({"two handles: data frame rows " + tag, [=](File &f) {
+                DataFrame h1 = B(f).getDataFrame("fr"), h2 = B(f).getDataFrame("fr");
+                G([&] { h1.rows(); }); G([&] { h1.readRow(0); });
+                G([&] { h2.rows(n2); });
+                for (size_t r : {(size_t)0, (size_t)2, (size_t)3, n2 ? n2 - 1 : 0, n2, n2 + 1}) {
+                    G([&] { h1.readRow(r); }); G([&] { h1.readCell(r, 2u); }); G([&] { h1.readCells(r, {"c0", "c2"}); });
+                    G([&] { h1.writeRow(r, {Variant(1.5), Variant(int64_t(2)), Variant("x"), Variant(true)}); });
+                }
+                G([&] { std::vector<double> v; h1.readColumn("c0", v, true); }); G([&] { std::vector<std::string> v; h1.readColumn("c2", v, true); });
+                G([&] { std::vector<int64_t> v(3); h1.readColumn("c1", v, false); }); G([&] { std::vector<std::string> v(n2 + 2); h1.readColumn(2u, v, n2 + 2, false, 0); });
+                G([&] { std::vector<double> v(n2 + 1, 1.0); h1.writeColumn("c0", v); });
+            }});
+            seqs.push_back({"two handles: property values " + tag, [=](File &f) {
+                Property h1 = f.getSection("meta").getProperty("ps"), h2 = f.getSection("meta").getProperty("ps");
+                G([&] { h1.values(); }); G([&] { h1.valueCount(); });
+                std::vector<Variant> v; for (size_t i = 0; i < n2; i++) v.push_back(Variant("v" + std::to_string(i)));
+                G([&] { if (n2) h2.values(v); else h2.deleteValues(); });
+                G([&] { h1.values(); }); G([&] { h1.valueCount(); }); G([&] { h1.values(std::vector<Variant>{Variant("z")}); }); G([&] { h2.values(); });
+            }});
+            seqs.push_back({"two handles: multi-tag positions " + tag, [=](File &f) {
+                Block b = B(f);
+                DataArray pos = b.createDataArray("pp", "t", DataType::Double, NDSize({3})); pos.setData(std::vector<double>{1.0, 2.0, 3.0});
+                MultiTag h1 = b.createMultiTag("mm", "t", pos); h1.addReference(A(f, "d1"));
+                G([&] { h1.taggedData(2, 0); }); G([&] { h1.positions().dataExtent(); });
+                DataArray p2 = A(f, "pp");
+                G([&] { p2.dataExtent(NDSize({(ndsize_t)n2})); });
+                for (size_t i : {(size_t)0, (size_t)2, (size_t)3, n2 ? n2 - 1 : 0, n2, n2 + 1}) { G([&] { h1.taggedData(i, 0); }); G([&] { std::vector<ndsize_t> idx = {0, (ndsize_t)i}; h1.taggedData(idx, 0); }); }
+                G([&] { std::vector<ndsize_t> none; h1.taggedData(none, 0); });
+            }});
+        }
+        for (size_t k = 0; k < seqs.size(); k++) {
+            long cid = caseno++;
+            if (!vf::take_case(cid)) continue;
+            vf::case_desc(seqs[k].name);
+            ops::copy_file(world, work);
+            File f = File::open(work, FileMode::ReadWrite);
+            std::string r = vf::guarded([&] { seqs[k].run(f); });
+            vf::distinct("outcomes", seqs[k].name + "|" + (r.empty() ? "returns" : r));
+            vf::guarded([&] { f.close(); });
+            vf::count("programs");
+        }
+        vf::note("two_handle_programs", std::to_string(seqs.size()));
+    }
     vf::note("misuse_calls", std::to_string(calls.size()));
     (void)rich;
     return vf::finish();
